@@ -1830,8 +1830,110 @@ func g23BreakOnlyWithoutProgress(r *Repo, rep *Report) {
 		return false
 	})
 	rep.analysed("reload_loop_breaks", n)
+	g23HeaderCondition(r, rep, fi)
 	if good == 0 && loopPos.IsValid() {
 		rep.fail(Finding{Rule: "G23", Key: "G23|unresolved|no-progress-exit", Where: []string{r.pos(loopPos)},
 			Msg: "the reload loop of generatePackage has no exit that is taken exactly when a pass leaves the same calls undefined as the pass before: a call that never becomes typeable keeps goderive rewriting and reloading for ever"})
 	}
+}
+
+
+// g23HeaderCondition — besides the break under "the same calls are still undefined", the reload loop may end through its
+// header condition. The only sound header is "this pass generated something" (or none at all): a pass that generated nothing has
+// not changed the derived file, so a reload cannot make another call typeable. The variable in the header may therefore only
+// be assigned a constant, or the result of (*pkg).Generate (directly, or compared with the constant 0 when Generate returns a
+// count). A header that compares this pass with the previous one (more functions than before, a longer file) ends the loop in
+// a pass that did make progress — under -dedup a call that becomes typeable in the second pass can be merged into a function of
+// the first, the count stays the same — and goderive reports `cannot generate` for a package another pass would have finished.
+func g23HeaderCondition(r *Repo, rep *Report, fi *FuncInfo) {
+	info := fi.Pkg.TypesInfo
+	gen := r.lookup("derive.(*pkg).Generate")
+	var loop *ast.ForStmt
+	ast.Inspect(fi.Decl.Body, func(m ast.Node) bool {
+		if l, ok := m.(*ast.ForStmt); ok && loop == nil {
+			loop = l
+			return false
+		}
+		return true
+	})
+	if loop == nil || loop.Cond == nil {
+		if loop != nil {
+			rep.pass("G23")
+		}
+		return
+	}
+	isGenCall := func(e ast.Expr) bool {
+		c, ok := ast.Unparen(e).(*ast.CallExpr)
+		return ok && gen != nil && callee(info, c) == gen.Fn
+	}
+	// locals that hold Generate's first result
+	genVars := map[types.Object]bool{}
+	ast.Inspect(fi.Decl.Body, func(m ast.Node) bool {
+		as, ok := m.(*ast.AssignStmt)
+		if !ok || len(as.Rhs) != 1 || !isGenCall(as.Rhs[0]) || len(as.Lhs) == 0 {
+			return true
+		}
+		if id, ok := as.Lhs[0].(*ast.Ident); ok {
+			genVars[objOf(info, id)] = true
+		}
+		return true
+	})
+	cid, ok := ast.Unparen(loop.Cond).(*ast.Ident)
+	if !ok {
+		rep.fail(Finding{Rule: "G23", Key: "G23|header|shape", Kind: "undecided", Where: []string{r.pos(loop.Cond.Pos())}, Msg: "the header condition of generatePackage's reload loop is not a variable: " + exprStr(loop.Cond)})
+		return
+	}
+	hv := info.Uses[cid]
+	bad := ""
+	var badPos token.Pos
+	okAssign := func(e ast.Expr) bool {
+		e = ast.Unparen(e)
+		if tv, ok := info.Types[e]; ok && tv.Value != nil {
+			return true
+		}
+		if id, ok := e.(*ast.Ident); ok && genVars[info.Uses[id]] {
+			return true
+		}
+		if be, ok := e.(*ast.BinaryExpr); ok {
+			// n > 0, n != 0, 0 < n
+			for _, pair := range [][2]ast.Expr{{be.X, be.Y}, {be.Y, be.X}} {
+				id, isID := ast.Unparen(pair[0]).(*ast.Ident)
+				tv, isC := info.Types[pair[1]]
+				if isID && genVars[info.Uses[id]] && isC && tv.Value != nil && tv.Value.String() == "0" {
+					return true
+				}
+			}
+		}
+		return false
+	}
+	ast.Inspect(fi.Decl.Body, func(m ast.Node) bool {
+		as, ok := m.(*ast.AssignStmt)
+		if !ok {
+			return true
+		}
+		for i, l := range as.Lhs {
+			id, ok := l.(*ast.Ident)
+			if !ok || objOf(info, id) != hv {
+				continue
+			}
+			if len(as.Rhs) == 1 && len(as.Lhs) > 1 {
+				if i == 0 && isGenCall(as.Rhs[0]) {
+					continue
+				}
+				bad, badPos = exprStr(as.Rhs[0]), as.Pos()
+				continue
+			}
+			if i < len(as.Rhs) && !okAssign(as.Rhs[i]) {
+				bad, badPos = exprStr(as.Rhs[i]), as.Pos()
+			}
+		}
+		return true
+	})
+	if bad != "" {
+		rep.fail(Finding{Rule: "G23", Key: "G23|header|not-generated-this-pass", Where: []string{r.pos(badPos)},
+			Msg: "the reload loop of generatePackage goes on while " + cid.Name + ", which is assigned " + bad + ": that is not `this pass generated something` (the result of (*pkg).Generate) but something else — a comparison with the previous pass ends the loop in a pass that made progress without growing (under -dedup a call that becomes typeable in the second pass is merged into a function of the first), and goderive reports `cannot generate` for a package that one more pass would have finished"})
+		return
+	}
+	rep.pass("G23")
+	rep.sample(map[string]string{"rule": "G23 the reload loop's header is `this pass generated something`", "loop": r.pos(loop.Pos())})
 }
